@@ -193,6 +193,12 @@ func RunQueueHistory(c QCfg) (tr *core.Trace, env *qenv.Env) {
 				// a transient I/O error while the flush commits; the retry must make the events durable
 				k, n := rng.Intn(3), 0
 				kind := []string{"w", "w", "sync"}[rng.Intn(3)]
+				if kind == "sync" {
+					// never the final sync of the commit: a failed final sync may leave the new header
+					// on disk (known finding of C08, reported there); C06 does not quantify over I/O
+					// failures at all - the transient failures only exercise the retry paths
+					k = 0
+				}
 				e.Disk.Fault = func(op string, nth, idx int) simdisk.FaultMode {
 					if op != kind {
 						return simdisk.NoFault
